@@ -3,10 +3,29 @@
 import json, sys
 ENV = "GOFLAGS=-mod=mod GOPROXY=off GOSUMDB=off GOTOOLCHAIN=local"
 A = "controlled-scheduler stateless model checking of the real Executor (iterative preemption bounding + happens-before state-key pruning)"
+NOTE_A = "Bounded: the programs, --concurrency values and preemption bound listed per unit in the evidence; interleavings at hooked synchronisation operations and probe writes; scenario commands are mvdan/sh builtins (no external processes); a deadline only ever truncates the deepest bound (exhaustive:false, completed_bound reported)."
 CHECKS = {
  "C01": dict(engine="A", technique=A + "; trace oracle: every dep completed successfully before each command start",
-             text="Exhaustive exploration, within the stated preemption bound, of all schedules of the real Executor.Run on a curated family of dependency graphs (diamonds over run-once/when_changed deps, failing shared deps, two-level cancellation, dep+call, parallel roots) x --concurrency {unlimited,1,2}; every command start is checked against the completion of every dep of its task.",
-             note="Bounded: programs listed in evidence, preemption bound per unit; interleavings at hooked synchronisation operations and probe writes; commands are mvdan/sh builtins."),
+             text="Exhaustive exploration, within the stated preemption bound, of all schedules of the real Executor.Run on dependency graphs (diamonds over run-once/when_changed deps, failing shared deps, two-level cancellation, dep+call, parallel roots) x --concurrency {unlimited,1,2}; every command start is checked against the completion of every dep of its task.",
+             note=NOTE_A),
+ "C02": dict(engine="A", technique=A + "; trace oracle: per-instance command sequencing, synchronous calls, call variables",
+             text="All schedules (bounded) of programs with nested calls to depth 3, list/matrix/var/matrix-ref loops, callee deps and defers, a concurrently running sibling; oracle: own entries strictly sequential in expansion order, nothing of a later entry (at any call depth) starts before every earlier entry incl. callee subtrees finished, callee prints exactly the call's vars.",
+             note=NOTE_A),
+ "C03": dict(engine="A+C", technique=A + "; plus exhaustive enumeration of exit codes 1..255 x failure position x --exit-code through the real CLI binary",
+             text="Fail-stop under all bounded schedules (failure in called task, dep, nested call, shared run-once task, loops; ignore_error on cmd/task/for) and the complete status mapping for every exit code 1..255 through the CLI.",
+             note=NOTE_A + " CLI matrix is sequential (no schedule)."),
+ "C06": dict(engine="A", technique=A + "; oracle: execution counts per (task, variable set) and waiting",
+             text="All bounded schedules of graphs referencing a deduplicated task from deps and cmds at depth<=3; when_changed variable flows (command text, env only, sub-call vars only, dynamic var, same); counts per run mode; referrers wait and observe the outcome.",
+             note=NOTE_A),
+ "C07": dict(engine="A", technique=A + "; oracle: in-flight commands <= N, exact deadlock detection, horizon, exists-overlap goals, cycle status",
+             text="For N in {unlimited,1,2,3} and graphs (chain, fan-out, diamond over run-once, nested calls in deps, failing nested fan-out, failing shared once, parallel roots): limit never exceeded, no deadlock (exact: no enabled thread), termination within horizon with all work done, and for every independent pair a witnessed overlapping schedule; cyclic references end with 204/201.",
+             note=NOTE_A + " Cycle scenarios: default schedule only (1000 nested calls per execution)."),
+ "C13": dict(engine="A", technique=A + "; enumerated guard kinds x outcomes x positions",
+             text="21 guard cases (platforms, requires, enum, preconditions, prompts incl. multi-prompt, internal, with --yes/--force/--force-all) x positions (direct, dep, nested call, shared run-once) under all schedules with a sibling (bound 1 quick / 3 thorough): no command of a blocked task or of anything needing it runs; documented status class.",
+             note=NOTE_A + " Prompts are answered through a line-at-a-time stdin with AssumeTerm."),
+ "C14": dict(engine="A", technique=A + "; oracle: exactly-once, after last command, reverse order, before caller continues, EXIT_CODE",
+             text="Programs with up to 3 defers (commands and task calls) at all positions, failing command at each position, nested tasks with own defers, alias/wildcard invocation, same task called repeatedly with different vars/outcome, cancellation by a failing sibling; all bounded schedules.",
+             note=NOTE_A),
 }
 ALL = ["C%02d" % i for i in range(1, 21)]
 REASON_PENDING = "check not built yet in this round (planned in DESIGN.md section 5); not claimed"
